@@ -12,8 +12,9 @@ from harness.driver import call_impl, cz, cnat, clist, cgrid, cres
 ID = 'C16'
 COQ_IMPORTS = ('From CPL Require Import Model.Base Model.EntropyExact Model.EntropyI Corr.C16.\n'
                'Open Scope Z_scope.')
-NONTRIVIAL_RULE = ('strings and lists over alphabets of 1..12 symbols (single characters, multi-character and unicode '
-                   'symbols), lengths 1..200 (thorough: ..256), for shannon_entropy / joint_shannon_entropy / '
+NONTRIVIAL_RULE = ('strings and lists over alphabets of 1..12 symbols (single characters incl. NUL, multi-character and unicode '
+                   'symbols, symbols differing only by trailing NULs / spaces / width, mixed int / float / bool / str symbols; Y alphabets '
+                   'wider than X), lengths 1..200 (thorough: ..256), for shannon_entropy / joint_shannon_entropy / '
                    'mutual_information (independent, equal, functionally dependent and noisy pairs); automata T x N with '
                    'T < N, T = N, T > N and states in {0,1}, {0..20}, {-1,1}, {-3..12}, magnitudes up to 2^62, for '
                    'average_cell_entropy and for average_mutual_information with every temporal distance in '
@@ -22,8 +23,18 @@ NONTRIVIAL_RULE = ('strings and lists over alphabets of 1..12 symbols (single ch
                    '(at least two distinct symbols somewhere), or was rejected by the guard; distinct = distinct case dicts')
 EXHAUSTIVE = {'quick': False, 'thorough': False}
 NOTES = ['every temporal distance from -1 to max(T,N)+1 is swept for every generated automaton',
+         'a float temporal_distance (d = 1.0) passes the guard and then raises TypeError in the slicing: temporal distances are '
+         'integers in the property; not a case',
+         'list symbols follow Python ==/hash (what dict.fromkeys, set, list.count and object-array == use): 1, 1.0 and True are one '
+         'symbol, \'1\' another; symbols differing only by trailing NULs / spaces / width are distinct (fix 602ebe5); NaN symbols '
+         '(not equal to themselves) are outside the model',
+         'the exact layer is taken FROM /repo: the arguments of math.log / np.log2 are spied during the call and turned back into '
+         'multiplicities (compared up to order inside Coq); if a refactoring stops using these calls the double alone is compared',
          'tolerance of the float comparison: 2^-30 around the real value enclosed at 80 bits (within_sound)']
-ASSUMPTIONS = ['automaton states are integers (str(x) is the decimal rendering; float-typed automata are outside the model)',
+ASSUMPTIONS = ['the laws of mutual information (symmetric, >= 0, MI(X,X) = H(X)) and H >= 0 are theorems about the REAL-VALUED definitions; the '
+               'returned doubles can break each of them by an ulp (mutual_information(\'1000101011\',\'0122111022\') = -4.4e-16) and are '
+               'shown only to lie within 2^-30 of the reals (C16_mi_double_lower / C16_mi_double_symm state what follows for the doubles)',
+               'automaton states are integers (str(x) is the decimal rendering; float-typed automata are outside the model)',
                'joint_shannon_entropy / mutual_information are given sequences of equal length (the docstring requires it)',
                'sequences are non-empty, automata have at least one row and one column',
                'IEEE arithmetic error of a few ulp per operation is far below the tolerance 2^-30 for sequences of length <= 256']
@@ -60,8 +71,18 @@ def cdbl(v):
     return 'None' if v is None else '(Some (%s, %s))' % (cz(v[0]), cz(v[1]))
 
 
+def _enc(x):
+    """A symbol as integers, injective on Python's ==/hash classes (what dict.fromkeys, set, list.count and the
+    elementwise == of object arrays all use): a str is its code points; bool / int / float are ONE symbol when
+    they are equal as numbers (1 == 1.0 == True), and never equal to a str."""
+    if isinstance(x, str):
+        return [0] + [ord(ch) for ch in x]
+    q = Fraction(x)          # exact for bool, int and finite float
+    return [1, q.numerator, q.denominator]
+
+
 def csym(s):
-    return clist([ord(ch) for ch in s], cz)
+    return clist(_enc(s), cz)
 
 
 def csyms(seq):
@@ -105,14 +126,21 @@ def ref_H(cs, n):
 
 
 # ---------------------------------------------------------------- generators
-POOLS = ['01', 'abcdefghijkl', '0123456789ab', 'aB1 -_.,;:!?', 'xyzéλ中\U0001f600qrstu', '-10 9']
+POOLS = ['a\x00 b\x01', '01', 'abcdefghijkl', '0123456789ab', 'aB1 -_.,;:!?', 'xyzéλ中\U0001f600qrstu', '-10 9']
 LIST_POOLS = [['0', '1'], ['10', '1', '0', '-1', '11', '101', '2', '20', '-10', '100', '3', '12'],
-              ['ab', 'a', 'b', 'ba', 'aa', '', ' ', 'abc', 'A', 'Ab', 'aB', 'bb']]
+              ['ab', 'a', 'b', 'ba', 'aa', '', ' ', 'abc', 'A', 'Ab', 'aB', 'bb'],
+              # symbols that differ only by trailing NULs / trailing spaces / width (a fixed-width NumPy string array
+              # strips trailing NULs: fix 602ebe5 made joint_shannon_entropy compare Python objects)
+              ['', '\x00', 'a', 'a\x00', 'a ', 'ab', 'a\x00\x00', ' ', '\x00 ', 'ab\x00', 'b', '\x00a'],
+              # mixed types: by ==/hash 1, 1.0 and True are ONE symbol, '1' another; 0, 0.0, False one, '0' another
+              [1, '1', 1.0, True, 0, False, '0', 2, 2.5, '1.0', 'True', 0.0]]
 
 
 def _alphabet(rng, as_list):
     k = rng.randint(1, 12)
     pool = rng.choice(LIST_POOLS if as_list else POOLS)
+    if as_list and rng.random() < 0.35:          # the two delicate pools get more than their share
+        pool = LIST_POOLS[rng.choice([3, 4])]
     pool = list(pool)
     rng.shuffle(pool)
     return pool[:max(1, min(k, len(pool)))]
@@ -135,6 +163,14 @@ def _seq(rng, alpha, L, skew):
 
 def _pair(rng, as_list, L, mode):
     a1 = _alphabet(rng, as_list)
+    if mode == 'ywide':      # Y has (many) more distinct symbols than X, and enough pairs for pair codes to collide
+        L = L if L >= 24 else L + 24
+        for _ in range(50):
+            a1, a2 = _alphabet(rng, as_list), _alphabet(rng, as_list)
+            if len(set(a2)) >= len(set(a1)) + 2:
+                break
+        a1 = a1[:rng.randint(1, 3)]
+        return _seq(rng, a1, L, False), _seq(rng, a2, L, False)
     X = _seq(rng, a1, L, rng.random() < 0.3)
     if mode == 'self':
         Y = list(X)
@@ -151,7 +187,7 @@ def _pair(rng, as_list, L, mode):
     return X, Y
 
 
-STATE_FAMILIES = ['bin', 'k21', 'pm1', 'm3_12', 'big', 'const']
+STATE_FAMILIES = ['bin', 'k21', 'pm1', 'm3_12', 'big', 'near', 'const']
 
 
 def _state(rng, fam):
@@ -165,6 +201,8 @@ def _state(rng, fam):
         return rng.randint(-3, 12)
     if fam == 'big':
         return rng.choice([10 ** 18, -10 ** 18, 2 ** 62, -2 ** 62, 1, 10, 100, 1000000007, -1000000007, 11, 101, 0])
+    if fam == 'near':        # large magnitudes that differ only beyond the 6th significant digit
+        return rng.choice([1000000, 123456789, -10 ** 12, 2 ** 53, 99999990]) + rng.randint(0, 3)
     return 7
 
 
@@ -186,7 +224,18 @@ def _shapes(rng, tier):
     return base
 
 
+def _nul(*seqs):
+    return any(isinstance(x, str) and x.endswith('\x00') for q in seqs for x in q)
+
+
 def generate(rng, tier):
+    for c in _generate(rng, tier):
+        if c['op'] in ('shannon', 'joint', 'mi') and _nul(c['X'], c.get('Y', [])):
+            c['nul_symbols'] = True        # handle for known_findings.json
+        yield c
+
+
+def _generate(rng, tier):
     mult = 1 if tier == 'quick' else 8
     for as_list in (False, True):
         form = 'list' if as_list else 'str'
@@ -194,7 +243,7 @@ def generate(rng, tier):
             L = _length(rng, tier, i)
             s = _seq(rng, _alphabet(rng, as_list), L, rng.random() < 0.3)
             yield {'kind': 'shannon/' + form, 'op': 'shannon', 'form': form, 'X': s}
-        modes = ['indep', 'self', 'function', 'noisy', 'constant']
+        modes = ['indep', 'self', 'function', 'noisy', 'constant', 'ywide']
         for i in range(100 * mult):
             X, Y = _pair(rng, as_list, _length(rng, tier, i), modes[i % len(modes)])
             yield {'kind': 'joint/' + form, 'op': 'joint', 'form': form, 'X': X, 'Y': Y}
@@ -203,7 +252,7 @@ def generate(rng, tier):
             X, Y = _pair(rng, as_list, _length(rng, tier, i), mode)
             yield {'kind': 'mi/%s/%s' % (form, mode), 'op': 'mi', 'form': form, 'X': X, 'Y': Y}
     for j, (T, N) in enumerate(_shapes(rng, tier)):
-        fam = STATE_FAMILIES[j % len(STATE_FAMILIES)] if j >= 14 else rng.choice(STATE_FAMILIES[:5])
+        fam = STATE_FAMILIES[j % len(STATE_FAMILIES)] if j >= 14 else rng.choice(STATE_FAMILIES[:6])
         shape = 'T<N' if T < N else ('T=N' if T == N else 'T>N')
         for rep in range(2 if tier == 'quick' else 3):
             rows = _automaton(rng, T, N, fam)
@@ -266,7 +315,7 @@ def _rand_edit(rng, T, N, fam):
 
 def _sequence_case(rng, variant):
     T, N = rng.randint(3, 7), rng.randint(1, 5)
-    fam = rng.choice(['bin', 'k21', 'pm1', 'm3_12', 'big'])
+    fam = rng.choice(['bin', 'k21', 'pm1', 'm3_12', 'big', 'near'])
     rows = _automaton(rng, T, N, fam)
     other = None
     if variant == 'other':
@@ -313,6 +362,85 @@ def _arg(seq, form):
     return ''.join(seq) if form == 'str' else list(seq)
 
 
+SPY_STATS = {'spied': 0, 'fallback': 0}
+
+
+class _Spy:
+    """Records the probabilities the code really feeds to math.log (shannon_entropy) and np.log2
+    (joint_shannon_entropy) during one call; both functions are restored on exit."""
+
+    def __enter__(self):
+        import numpy as np
+        self.np, self.log_ps, self.log2_ps = np, [], []
+        self.orig_log, self.orig_log2 = math.log, np.log2
+
+        def log(x, *a):
+            self.log_ps.append(x)
+            return self.orig_log(x, *a)
+
+        def log2(x, *a, **k):
+            self.log2_ps.append(x)
+            return self.orig_log2(x, *a, **k)
+        math.log, np.log2 = log, log2
+        return self
+
+    def __exit__(self, *exc):
+        math.log, self.np.log2 = self.orig_log, self.orig_log2
+        return False
+
+
+def _groups(ps, n):
+    """probabilities -> multiplicities out of n (exactly: c / n must reproduce p), cut into runs that sum to n"""
+    out, cur, tot = [], [], 0
+    for pr in ps:
+        try:
+            pr = float(pr)
+            k = int(round(pr * n))
+        except (TypeError, ValueError, OverflowError):
+            return None
+        if k < 0 or k > n or float(k) / n != pr:
+            return None
+        cur.append(k)
+        tot += k
+        if tot == n:
+            out.append(cur)
+            cur, tot = [], 0
+        elif tot > n:
+            return None
+    return out if not cur else None
+
+
+def _spied_cells(op, spy, n, ncols):
+    """the exact layer as the code computed it: cells (cX, cY, cXY, n), or None when the calls do not have the
+    expected shape (a refactoring that no longer goes through math.log / np.log2: only the double is compared)"""
+    if n <= 0:
+        return None
+    g1, g2 = _groups(spy.log_ps, n), _groups(spy.log2_ps, n)
+    if g1 is None or g2 is None:
+        return None
+    if op == 'shannon' and len(g1) == 1 and not g2:
+        return [[g1[0], [], [], n]]
+    if op == 'joint' and not g1 and len(g2) == 1:
+        return [[[], [], g2[0], n]]
+    if op == 'mi' and len(g1) == 2 and len(g2) == 1:
+        return [[g1[0], g1[1], g2[0], n]]
+    if op == 'ace' and len(g1) == ncols and not g2:
+        return [[g, [], [], n] for g in g1]
+    if op == 'ami' and len(g1) == 2 * ncols and len(g2) == ncols:
+        return [[g1[2 * i], g1[2 * i + 1], g2[i], n] for i in range(ncols)]
+    return None
+
+
+def _call(op, n, ncols, fn):
+    """run one call of /repo under the spy: [status, double-or-exception, spied cells or None]"""
+    with _Spy() as spy:
+        r = call_impl(lambda: dbl(fn()))
+    cells = _spied_cells(op, spy, n, ncols) if r[0] == 'ok' else None
+    if r[0] == 'ok':
+        SPY_STATS['spied' if cells is not None else 'fallback'] += 1
+    return [r[0], r[1], cells]
+
+
 def run_impl(c):
     import warnings
     import numpy as np
@@ -321,48 +449,48 @@ def run_impl(c):
     with warnings.catch_warnings():
         warnings.simplefilter('ignore')
         if op == 'shannon':
-            r = call_impl(lambda: dbl(cpl.shannon_entropy(_arg(c['X'], c['form']))))
-        elif op == 'joint':
-            r = call_impl(lambda: dbl(cpl.joint_shannon_entropy(_arg(c['X'], c['form']), _arg(c['Y'], c['form']))))
-        elif op == 'mi':
-            r = call_impl(lambda: dbl(cpl.mutual_information(_arg(c['X'], c['form']), _arg(c['Y'], c['form']))))
-        elif op == 'seq':
+            return _call(op, len(c['X']), 0, lambda: cpl.shannon_entropy(_arg(c['X'], c['form'])))
+        if op == 'joint':
+            return _call(op, len(c['X']), 0,
+                         lambda: cpl.joint_shannon_entropy(_arg(c['X'], c['form']), _arg(c['Y'], c['form'])))
+        if op == 'mi':
+            return _call(op, len(c['X']), 0,
+                         lambda: cpl.mutual_information(_arg(c['X'], c['form']), _arg(c['Y'], c['form'])))
+        if op == 'seq':
             ca = np.array(c['rows'], dtype=np.int64)          # ONE object for the whole sequence
             cb = np.array(c['other'], dtype=np.int64) if c.get('other') else None
             out = []
             for st in c['steps']:
                 _apply_edits_np(ca, st['edits'])              # in place: same object, new contents
                 arr = ca if st['target'] == 'main' else cb
+                T, N = arr.shape
                 if st['call'] == 'ace':
-                    out.append(list(call_impl(lambda: dbl(cpl.average_cell_entropy(arr)))))
+                    out.append(_call('ace', T, N, lambda: cpl.average_cell_entropy(arr)))
                 else:
-                    out.append(list(call_impl(lambda: dbl(cpl.average_mutual_information(arr, st['d'])))))
+                    out.append(_call('ami', T - st['d'], N, lambda: cpl.average_mutual_information(arr, st['d'])))
             return out
-        elif op == 'ace':
-            r = call_impl(lambda: dbl(cpl.average_cell_entropy(np.array(c['rows'], dtype=np.int64))))
-        else:
-            r = call_impl(lambda: dbl(cpl.average_mutual_information(np.array(c['rows'], dtype=np.int64), c['d'])))
-    return list(r)
+        rows = c['rows']
+        T, N = len(rows), len(rows[0])
+        if op == 'ace':
+            return _call(op, T, N, lambda: cpl.average_cell_entropy(np.array(rows, dtype=np.int64)))
+        return _call(op, T - c['d'], N, lambda: cpl.average_mutual_information(np.array(rows, dtype=np.int64), c['d']))
 
 
 def _series(rows, i):
     return [str(r[i]) for r in rows]
 
 
+def crefs(obs):
+    """the multiplicities recovered from /repo's own calls (None: not recoverable, only the double is compared)"""
+    cells = obs[2] if len(obs) > 2 else None
+    return 'None' if cells is None else '(Some %s)' % clist(cells, ccell)
+
+
 def _auto_term(ctor_ace, ctor_ami, c, obs):
     o = cres(obs, cdbl)
-    rows = c['rows']
-    T, N = len(rows), len(rows[0])
     if c['op'] == 'ace':
-        ref = [(ref_counts(_series(rows, i)), T) for i in range(N)]
-        return '(%s %s %s %s)' % (ctor_ace, cgrid(rows), clist(ref, lambda cn: '(%s, %s)' % (cnats(cn[0]), cnat(cn[1]))), o)
-    d = c['d']
-    ref = []
-    if 0 < d < T:
-        for i in range(N):
-            s = _series(rows, i)
-            ref.append(ref_cell(s[:-d], s[d:]))
-    return '(%s %s %s %s %s)' % (ctor_ami, cgrid(rows), cz(d), clist(ref, ccell), o)
+        return '(%s %s %s %s)' % (ctor_ace, cgrid(c['rows']), crefs(obs), o)
+    return '(%s %s %s %s %s)' % (ctor_ami, cgrid(c['rows']), cz(c['d']), crefs(obs), o)
 
 
 def to_coq(c, obs):
@@ -371,12 +499,35 @@ def to_coq(c, obs):
         return '(CSeq %s)' % clist(list(zip(_step_cases(c), obs)), lambda so: _auto_term('SAce', 'SAmi', so[0], so[1]))
     o = cres(obs, cdbl)
     if op == 'shannon':
-        return '(CShannon %s %s %s)' % (csyms(c['X']), cnats(ref_counts(c['X'])), o)
+        return '(CShannon %s %s %s)' % (csyms(c['X']), crefs(obs), o)
     if op == 'joint':
-        return '(CJoint %s %s %s %s)' % (csyms(c['X']), csyms(c['Y']), cnats(ref_joint(c['X'], c['Y'])), o)
+        return '(CJoint %s %s %s %s)' % (csyms(c['X']), csyms(c['Y']), crefs(obs), o)
     if op == 'mi':
-        return '(CMI %s %s %s %s)' % (csyms(c['X']), csyms(c['Y']), ccell(ref_cell(c['X'], c['Y'])), o)
+        return '(CMI %s %s %s %s)' % (csyms(c['X']), csyms(c['Y']), crefs(obs), o)
     return _auto_term('CACE', 'CAMI', c, obs)
+
+
+def extra_checks(ctx):
+    tot = SPY_STATS['spied'] + SPY_STATS['fallback']
+    return [{'info': True, 'what': 'exact layer recovered from /repo (math.log / np.log2 arguments) in %d of %d accepted calls; '
+                                   'the remaining ones were compared on the double alone' % (SPY_STATS['spied'], tot)}]
+
+
+def _ref_cells(c):
+    """plain-Python symbol counts (==/hash semantics) in the shape of the spied cells"""
+    op = c['op']
+    if op == 'shannon':
+        return [[ref_counts(c['X']), [], [], len(c['X'])]]
+    if op == 'joint':
+        return [[[], [], ref_joint(c['X'], c['Y']), len(c['X'])]]
+    if op == 'mi':
+        return [ref_cell(c['X'], c['Y'])]
+    rows = c['rows']
+    T, N = len(rows), len(rows[0])
+    if op == 'ace':
+        return [[ref_counts(_series(rows, i)), [], [], T] for i in range(N)]
+    d = c['d']
+    return [ref_cell(_series(rows, i)[:-d], _series(rows, i)[d:]) for i in range(N)]
 
 
 def _ref_value(c):
@@ -433,6 +584,12 @@ def oracle(c, obs):
         return 'raised %s' % obs[1]
     if obs[1] is None:
         return 'returned nan or infinity'
+    spied = obs[2] if len(obs) > 2 else None
+    if spied is not None:
+        want_cells = _ref_cells(c)
+        canon = lambda cells: sorted([sorted(a), sorted(b), sorted(x), n] for a, b, x, n in cells)
+        if canon(spied) != canon(want_cells):
+            return 'multiplicities used by the code %r differ from the symbol counts %r' % (spied, want_cells)
     v = math.ldexp(obs[1][0], obs[1][1])
     want = _ref_value(c)
     if abs(v - want) > 1e-9:
